@@ -38,8 +38,16 @@ func (l *ScriptedLimit) OnSample(start int64, rtt int64, inFlight int, didDrop b
 	l.mu.Lock()
 	defer l.mu.Unlock()
 	l.n++
+	fault := false
 	if l.n <= len(l.script) {
-		l.est = l.script[l.n-1] // afterwards OnSample leaves the estimate alone, like a settable limit
+		if l.script[l.n-1] == panicMark {
+			fault = true // the algorithm takes the sample (recorded below) and then faults
+		} else {
+			l.est = l.script[l.n-1] // afterwards OnSample leaves the estimate alone, like a settable limit
+		}
+	}
+	if fault {
+		defer panic(algorithmFault)
 	}
 	rec := J{"rtt": rtt / int64(tickDur), "inflight": inFlight, "drop": didDrop}
 	if rtt%int64(tickDur) != 0 {
@@ -49,6 +57,21 @@ func (l *ScriptedLimit) OnSample(start int64, rtt int64, inFlight int, didDrop b
 		rec["start"] = start
 	}
 	l.Samples = append(l.Samples, rec)
+}
+
+// panicMark in a script: the scripted algorithm panics after taking that sample (PanicMark of spec/Limiter.tla); the
+// completion's caller recovers, like a recovery middleware, and goes on using the limiter.
+const panicMark = -7777
+const algorithmFault = "verif: limit algorithm fault"
+
+// completeRecovering runs a completion and swallows the scripted algorithm's own fault.
+func completeRecovering(f func()) {
+	defer func() {
+		if r := recover(); r != nil && r != algorithmFault {
+			panic(r)
+		}
+	}()
+	f()
 }
 
 // limCfg mirrors the cfg record of spec/Limiter.tla.
@@ -183,11 +206,11 @@ func (s *limSUT) apply(op limOp) (res J, err error) {
 		s.ls = append(append([]core.Listener{}, s.ls[:op.I-1]...), s.ls[op.I:]...)
 		switch op.Outcome {
 		case "success":
-			l.OnSuccess()
+			completeRecovering(l.OnSuccess)
 		case "ignore":
-			l.OnIgnore()
+			completeRecovering(l.OnIgnore)
 		default:
-			l.OnDropped()
+			completeRecovering(l.OnDropped)
 		}
 	case "burst":
 		// the listed calls complete at once, each from its own goroutine behind a common start barrier
@@ -208,11 +231,11 @@ func (s *limSUT) apply(op limOp) (res J, err error) {
 				<-start
 				switch outcome {
 				case "success":
-					l.OnSuccess()
+					completeRecovering(l.OnSuccess)
 				case "ignore":
-					l.OnIgnore()
+					completeRecovering(l.OnIgnore)
 				default:
-					l.OnDropped()
+					completeRecovering(l.OnDropped)
 				}
 			}(l, op.Items[k].Outcome)
 		}
@@ -312,7 +335,7 @@ func TestLimiterRandom(t *testing.T) {
 				MinW: r.between(1, 6), Threshold: r.between(0, 2), Est0: r.between(1, 6), Rem0: -1}
 			cfg.MaxW = cfg.MinW + r.intn(6)
 			for i := r.between(1, 5); i > 0; i-- {
-				cfg.Script = append(cfg.Script, []int{-3, 0, 1, 2, 3, 5, 8, 16, math.MinInt32 - 1, -(1 << 32) + 7, math.MinInt64 + 5}[r.intn(11)])
+				cfg.Script = append(cfg.Script, []int{-3, 0, 1, 2, 3, 5, 8, 16, math.MinInt32 - 1, -(1 << 32) + 7, math.MinInt64 + 5, panicMark}[r.intn(12)])
 			}
 			if bursty {
 				cfg.Strat, cfg.Est0, cfg.Threshold = []string{"simple", "precise"}[k%2], r.between(8, 14), r.intn(2)
